@@ -61,7 +61,15 @@ def run_case(case, tier):
         if rng.random() < 0.1:
             subset = subset + [rng.choice("QRS")]        # an id that does not occur
     opts = []
-    for c in subset:
+    order = list(subset)
+    if case["kind"] != "file":
+        if rng.random() < 0.3:
+            rng.shuffle(order)                       # -c I -c E: the order of the options is no order of chains
+            classes.append("options-in-other-order")
+        if rng.random() < 0.1:
+            order.append(rng.choice(order))          # -c A -c A
+            classes.append("chain-named-twice")
+    for c in order:
         opts += ["-c", c]
     extra = rng.choice(([], [], ["-d"], ["--protonate-all"]))
     if not extra:
